@@ -16,7 +16,7 @@ import (
 
 func init() {
 	register(&Prop{ID: "C10", Run: runC10, MinNontrivial: 500,
-		Rule:        "cases = LogoutRequest/LogoutResponse records with 0-2 injected faults (Version, Destination incl. near-misses, Issuer absent/other/empty, Status absent/StatusCode absent/non-Success/second-level Success) x signing state (unsigned, trusted, untrusted, trusted cert + foreign key, tampered after signing, signature relocated into a child, genuine signed message wrapped by evil content with same or fresh ID) x raw/DEFLATE x skip on/off x issuer configured or not, plus kind confusion (SSO Response, AuthnRequest, the other logout kind, the SP's own output) and direct ValidateDecodedLogout* calls on hand-built structs; oracle: accept iff reference checks pass and (no root signature or it verifies), flag iff not skip and root signature verified, flagged => returned fields equal the signed record, typed error names a violated check, foreign kinds never accepted; non-trivial = document parsed and reached the checks; distinct by parameter tuple; configured SLO / issuer values with metacharacters and the same near-miss values; unsigned messages against a nil certificate store",
+		Rule:        "cases = LogoutRequest/LogoutResponse records with 0-2 injected faults (Version, Destination incl. near-misses, Issuer absent/other/empty, Status absent/StatusCode absent/non-Success/second-level Success) x signing state (unsigned, trusted, untrusted, trusted cert + foreign key, tampered after signing, signature relocated into a child, genuine signed message wrapped by evil content with same or fresh ID) x raw/DEFLATE x skip on/off x issuer configured or not, plus kind confusion (SSO Response, AuthnRequest, the other logout kind, the SP's own output) and direct ValidateDecodedLogout* calls on hand-built structs; oracle: accept iff reference checks pass and (no root signature or it verifies), flag iff not skip and root signature verified, flagged => returned fields equal the signed record, typed error names a violated check, foreign kinds never accepted; non-trivial = document parsed and reached the checks; distinct by parameter tuple; configured SLO / issuer values with metacharacters and the same near-miss values; unsigned messages against a nil certificate store; unused namespace declarations spelled like the checked attributes added to a signed root tag (state nsdecl-added); Version spellings; Issuer Format attributes",
 		Assumptions: []string{"for a relocated signature only the implication 'flagged => fields equal the signed record' is asserted (goxmldsig accepts an enveloped signature anywhere below the root)"}})
 }
 
@@ -188,13 +188,13 @@ func GenLogoutCase(r *rand.Rand, w *World, isResp bool) (*LogoutCase, error) {
 	if l.Issuer != nil && r.IntN(4) == 0 {
 		l.IssuerFormat = sim.S(pick(r, IssuerFormats))
 	}
-	lc.State = pick(r, []string{"unsigned", "trusted", "trusted", "untrusted", "foreign-key", "tampered", "relocated", "wrapped-fresh", "wrapped-same", "unsigned-flag-injected", "unsigned-shadow-attrs"})
+	lc.State = pick(r, []string{"unsigned", "trusted", "trusted", "untrusted", "foreign-key", "tampered", "relocated", "wrapped-fresh", "wrapped-same", "unsigned-flag-injected", "unsigned-shadow-attrs", "nsdecl-added"})
 	st := sim.RandomStyle(r)
 	st.TextTricks = 0
 	lc.Presented = l
 	switch lc.State {
 	case "unsigned", "unsigned-flag-injected", "unsigned-shadow-attrs":
-	case "trusted", "tampered", "relocated", "wrapped-fresh", "wrapped-same":
+	case "trusted", "tampered", "relocated", "wrapped-fresh", "wrapped-same", "nsdecl-added":
 		l.Sig = randSigSpec(r, lc.Signer, true, false)
 		lc.Signed = l
 	case "untrusted":
@@ -256,6 +256,21 @@ func GenLogoutCase(r *rand.Rand, w *World, isResp bool) (*LogoutCase, error) {
 			x = strings.Replace(x, ">", ` Version="1.1">`, 1)
 		}
 		lc.Presented = &ev
+	case "nsdecl-added":
+		// after signing, namespace declarations nobody uses are added to the root tag, their prefixes spelled like the
+		// attributes the SP checks or reports. Under exclusive canonicalisation the signature still verifies (unused
+		// declarations are no part of the signed form), under the inclusive ones it no longer does; either way the
+		// message says what the IdP signed.
+		d, err := sim.ParseDoc(x)
+		if err != nil {
+			return nil, err
+		}
+		for _, nm := range [][2]string{{"Destination", c10SLO}, {"ID", "_evil"}, {"InResponseTo", "_attacker_chosen"}, {"Version", "2.0"}, {"IssueInstant", "2001-01-01T00:00:00Z"}} {
+			if r.IntN(2) == 0 {
+				d.Root().CreateAttr("xmlns:"+nm[0], nm[1])
+			}
+		}
+		x = sim.DocString(d)
 	case "tampered":
 		d, err := sim.ParseDoc(x)
 		if err != nil {
@@ -428,6 +443,21 @@ func runC10(c *mon.Ctx) {
 			} else {
 				cs.Outcome("relocated-rejected")
 			}
+		case lc.State == "nsdecl-added" && !skip:
+			if gerr == nil {
+				if len(V) != 0 {
+					cs.Violation("accepted-despite-failed-check", "accepted although %v must fail (state %s)", keys(V), lc.State)
+				} else if !got.flag {
+					cs.Violation("flag-false-want-true", "accepted a message carrying its own root signature without the indicator")
+				} else if d := logoutFieldsEqual(lc.Signed, got); d != "" {
+					cs.Violation("flagged-fields-differ", "reported as validated but %s", d)
+				}
+				cs.Outcome("nsdecl-accepted")
+			} else {
+				cs.Outcome("nsdecl-rejected")
+			}
+		case lc.State == "nsdecl-added":
+			cs.Outcome("nsdecl-under-skip") // nothing is verified: the reading of an unsigned root tag is not what this class is about
 		case badSig && !skip:
 			if gerr == nil {
 				cs.Outcome("bad-signature-accepted")
